@@ -76,16 +76,14 @@ def splitLastNonDollarRun (s : Str) : Str × Str :=
   let run := (s.reverse.takeWhile (· ≠ '$')).reverse
   (s.take (s.length - run.length), run)
 
-/-- `Regex::replace` with `(?P<head>[^\$]*)\$\(.+\)(?P<tail>.*)` and template `${head}OUT${tail}` -/
+/-- `Regex::replace` with `(?P<head>[^\$]*)\$\(.+\)(?P<tail>.*)` and a closure that concatenates head, output
+and tail (no template interpretation of the output) -/
 def spliceDollar (line out : Str) : Str :=
   match findDollarGroup [] line with
   | none => line
   | some (pre, _, post) =>
-    let (before, head) := splitLastNonDollarRun pre
-    let tail := post.takeWhile (· ≠ '\n')
-    let after := post.dropWhile (· ≠ '\n')
-    before ++ expandTemplate { groups := [none, some head, some tail], names := [("head".toList, 1), ("tail".toList, 2)] }
-      ("${head}".toList ++ out ++ "${tail}".toList) ++ after
+    -- `pre` = everything before `$(`: the match starts at the last maximal run of non-`$` characters of it
+    pre ++ out ++ post
 
 /-- `^([^`]*)`([^`]+)`(.*)$` -/
 def matchBackquote (t : Str) : Option (Str × Str × Str) :=
